@@ -150,6 +150,7 @@ def build_ledger(sess, ops, mh, d):
     problems = []
     income = {}
     build_ledger.last_income = income
+    excl = set(getattr(d, 'exclusions', []))
 
     def add(sh, sign, ser, label, num=None, den=None, inc=True):
         if sh not in led:
@@ -158,6 +159,11 @@ def build_ledger(sess, ops, mh, d):
             problems.append('missing series for %s on %s' % (label, sh))
             return
         led[sh].append((sign, ser, label, num, den))
+        # flows the program excluded from income itself (declared before main(), where all of these are booked)
+        flow = label.split(':', 1)[1] if ':' in label else {'dividend-received': 'DIV', 'dividend-paid': 'DIV',
+                                                            'tax-paid': 'T', 'tax-received': 'T'}.get(label)
+        if flow is not None and (sh, flow) in excl:
+            inc = False
         income[(sh, len(led[sh]) - 1)] = inc
 
     # goods and labour markets
